@@ -190,11 +190,11 @@ def phaseName : Phase → String
 
 /-- `guardVersioned = false`: the code as it is. Flip to `true` once
 fixes/C25-noncurrent-expiration-if-match.patch is committed in /repo. -/
-def guardVersionedInCode : Bool := false
+def guardVersionedInCode : Bool := true
 
 /-- `strictDm = false`: the code as it is. Flip to `true` once
 fixes/C25-expired-delete-marker-sole-version.patch is committed in /repo. -/
-def strictDmInCode : Bool := false
+def strictDmInCode : Bool := true
 
 def modelCalls (rules : List Rule) (now : Int) (ph : Phase) (p : PhaseObs) : List Call :=
   match ph with
@@ -280,7 +280,8 @@ def judgeNoncurrent (rules : List Rule) (now : Int) (key : Bytes) (truth : List 
     else if ncExpireJustified rules now key v.size v.tags since newerObj && ncExpireJustified rules now key v.size v.tags pred.lm newerObj then
       let kind :=
         if perturbed then ".lastmodified-order"
-        else if newerObj ≥ 1 && !ncExpireJustified rules now key v.size v.tags since (newerObj - 1) then ".retained-as-n-plus-first"
+        else if newerObj ≥ 1 && !(ncExpireJustified rules now key v.size v.tags since (newerObj - 1) &&
+                                  ncExpireJustified rules now key v.size v.tags pred.lm (newerObj - 1)) then ".retained-as-n-plus-first"
         else ""
       { vio := [(s!"C25.noncurrent-transition-while-expiration-due{kind}", s!"version {toHex v.vid} of {toHex key} ({newer} newer noncurrent versions) is due for NoncurrentVersionExpiration under S3 semantics but was transitioned")],
         label := "nc-transition-unjustified" }
